@@ -442,6 +442,10 @@ def run_case_(c, tier, keep=False):
         m = re.match(r"no body for callee (\S+)", d)
         if m and m.group(1) in expect_nobody:
             continue
+        deny = c.get("no_body_deny_re")
+        if m and deny and not re.search(deny, m.group(1)):
+            c.inert = sorted(set(getattr(c, "inert", []) + [m.group(1)]))
+            continue
         real.append(r)
     if getattr(c, "unknown", 0) and not real and not unwind:
         c.status = "error"
@@ -586,7 +590,7 @@ def make_replay(c, linked, wd, timeout, memcap):
         only_asserts = all(not re.match(r"(dereference failure|array|pointer|memcpy|memmove|free|double free|deallocated|.*bounds)", (f["description"] or "")) for f in c.failed)
         if not ok and only_asserts and not c.get("replay_optional", False):
             c.status = "error"
-            c.detail += " (assertion-only counterexample did not reproduce: encoding error, no VIOLATION reported)"
+            c.detail += " (assertion-only counterexample did not reproduce: encoding error, no VIOLATION reported) failed: " + "; ".join(sorted(set((f["description"] or "")[:70] for f in c.failed))[:8])
     else:
         c.replay_confirmed = None
         c.detail += " | replay: trace only (harness marked native=false: %s)" % c.get("native_why", "stubs not natively linkable")
